@@ -28,7 +28,8 @@ class E2(aenum.Enum, shape=unsigned(2)):
 
 SHAPES = {"u0": lambda: unsigned(0), "u1": lambda: unsigned(1), "u2": lambda: unsigned(2), "u3": lambda: unsigned(3),
           "s1": lambda: signed(1), "s2": lambda: signed(2), "s3": lambda: signed(3), "e2": lambda: E2,
-          "r5": lambda: range(5)}
+          "r5": lambda: range(5), "u8": lambda: unsigned(8), "s8": lambda: signed(8), "u12": lambda: unsigned(12),
+          "s5": lambda: signed(5)}
 
 
 def swidth(name):
@@ -162,7 +163,14 @@ class Ref:
         return p.split("_", 1)[1] if p[0] == "f" else p
 
     def alphabet(self, name, wide):
-        return list(range(1 << self.widths[name]))
+        w = self.widths[name]
+        if w <= 8 and (wide or w <= 3):
+            return list(range(1 << w))
+        full = (1 << w) - 1
+        if wide:
+            return sorted({0, full} | {1 << i for i in range(w)} | {full ^ (1 << i) for i in range(w)})
+        a = int(("10100101" * 4)[-w:], 2)
+        return sorted({0, full, a, a ^ full, 1 << (w - 1)})
 
     def expected(self, letter):
         if self.meta_err:
@@ -196,6 +204,15 @@ def configs(tier):
         if k not in seen:
             seen.add(k); out.append(c)
 
+    # wide registers (16-32 bits): walking / pattern tokens instead of all values
+    WIDE = [("u8", "rw"), ("s8", "r"), ("u12", "w"), ("s5", "rw"), ("u3", "nc"), ("s8", "rw"), ("u8", "r")]
+    for sname in ("dict3", "list3", "deep", "dict_list"):
+        n = n_leaves(STRUCTS[sname])
+        for r in range(len(WIDE)):
+            leaves = [WIDE[(r + 2 * j) % len(WIDE)] for j in range(n)]
+            add(dict(struct=sname, leaves=leaves, racc="rw", wide=True))
+            if not quick:
+                add(dict(struct=sname, leaves=leaves, racc="rw", wide=True, annot=True))
     for sname, struct in STRUCTS.items():
         n = n_leaves(struct)
         if n <= 2:
@@ -207,7 +224,7 @@ def configs(tier):
                        for acc in ("r", "w", "rw", "nc")]
         for leaves in combos:
             if sum(swidth(sh) for sh, _ in leaves) > 8:
-                continue
+                continue      # (the wide registers above are enumerated with token alphabets)
             for racc in ("r", "w", "rw"):
                 add(dict(struct=sname, leaves=list(leaves), racc=racc))
                 if not quick or sname in ("dict2", "deep"):
@@ -260,5 +277,6 @@ def main(tier, seed):
 ASSUMPTIONS = [
     "Amaranth 0.5.10 front end, build_netlist and Simulator are the trusted base",
     "registers are combinational (asserted per netlist): transitions = evaluated letters of the single state",
-    "total register width <= 8 bits so that every value of every port is enumerated",
+    "total register width <= 8 bits: every value of every port is enumerated; registers flagged wide (up to 36 bits): walking-1/"
+    "walking-0 tokens per port (thinned to 5 pattern tokens when a support product exceeds 40000)",
 ]
